@@ -571,7 +571,11 @@ func child(name string, maxDepth, step int) string {
 				clean = false
 			}
 		}
-		return fmt.Sprintf("%s clean=%v", refused, clean)
+		ef := ""
+		if k.extra != nil {
+			ef = " " + k.extra()
+		}
+		return fmt.Sprintf("%s%s clean=%v", refused, ef, clean)
 	}
 	_ = before
 	extraFacts := ""
